@@ -13,6 +13,25 @@ use std::sync::Arc;
 
 const SEEDS: [u64; 3] = [1, 42, (1u64 << 63) + 5];
 const NSAMP: usize = 16;
+/// thorough tier: 50 seeds x 32 samples per observation, denser parameter lattices
+static THOROUGH: std::sync::atomic::AtomicBool = std::sync::atomic::AtomicBool::new(false);
+fn thorough() -> bool {
+    THOROUGH.load(std::sync::atomic::Ordering::Relaxed)
+}
+fn seeds() -> Vec<u64> {
+    if thorough() {
+        (0..50u64).map(|k| if k < 3 { SEEDS[k as usize] } else { k.wrapping_mul(0x9E37_79B9_7F4A_7C15) | 1 }).collect()
+    } else {
+        SEEDS.to_vec()
+    }
+}
+fn nsamp() -> usize {
+    if thorough() {
+        32
+    } else {
+        NSAMP
+    }
+}
 const NAN: f64 = f64::NAN;
 
 pub trait DObj: Send + Sync {
@@ -77,6 +96,36 @@ pub struct Law {
 }
 
 pub fn laws() -> Vec<Law> {
+    let mut v = laws_base();
+    if thorough() {
+        // denser lattices crossing every algorithm regime of the samplers and densities
+        let extra: Vec<(&str, Vec<Vec<f64>>)> = vec![
+            ("Normal", vec![vec![1e3, 0.5], vec![1e-3, 1e3]]),
+            ("Gamma", vec![vec![0.2, 0.9, 150.0], vec![1e-3, 1e3]]),
+            ("Beta", vec![vec![0.2, 20.0, 60.0], vec![0.2, 20.0]]),
+            ("ChiSquared", vec![vec![3.0, 4.0, 8.0, 200.0]]),
+            ("T", vec![vec![1.5, 3.0, 200.0]]),
+            ("Pareto", vec![vec![1.5, 3.0, 20.0], vec![1e-3, 1e3]]),
+            ("Gumbel", vec![vec![-1.0, 1e3], vec![1e-3, 1e3]]),
+            ("Exponential", vec![vec![1e-2, 0.1, 10.0, 100.0]]),
+            ("Uniform", vec![vec![-1e3, 0.5], vec![0.5, 1e3]]),
+            ("Poisson", vec![vec![9.9, 10.0, 149.0, 150.0, 500.0, 1e-3]]),
+            ("Binomial", vec![vec![30.0, 100.0, 1000.0], vec![0.01, 0.99]]),
+            ("Bernoulli", vec![vec![0.75, 1e-3]]),
+            ("DiscreteUniform", vec![vec![-40.0, 40.0], vec![-40.0, 40.0]]),
+        ];
+        for (name, add) in extra {
+            if let Some(l) = v.iter_mut().find(|l| l.name == name) {
+                for (i, a) in add.into_iter().enumerate() {
+                    l.lattice[i].extend(a);
+                }
+            }
+        }
+    }
+    v
+}
+
+fn laws_base() -> Vec<Law> {
     let cont_pts: Vec<f64> = vec![-1e3, -7.5, -2.0, -1.0, -0.5, -1e-9, 0.0, 1e-9, 0.1, 0.25, 0.5, 0.75, 0.9, 1.0, 1.5, 2.0, 2.5, 3.0, 4.5, 5.0, 5.5, 6.0, 10.0, 64.3, 1e3];
     let disc_pts: Vec<f64> = vec![-6.0, -5.0, -3.0, -1.0, 0.0, 1.0, 2.0, 3.0, 4.0, 5.0, 6.0, 7.0, 8.0, 10.0, 14.0, 15.0, 16.0, 20.0, 35.0, 42.0, 69.0, 70.0, 71.0, 100.0, 1000.0];
     vec![
@@ -106,7 +155,8 @@ fn bits(x: f64) -> u64 {
 
 /// the complete observation of an object: density lattice, moments, seeded streams
 pub fn observe(o: &dyn DObj, pts: &[f64]) -> Vec<u64> {
-    let mut v = Vec::with_capacity(pts.len() + 2 + SEEDS.len() * NSAMP);
+    let (sds, ns) = (seeds(), nsamp());
+    let mut v = Vec::with_capacity(pts.len() + 2 + sds.len() * ns);
     for &x in pts {
         v.push(match guard(|| o.density(x)) {
             Ok(d) => bits(d),
@@ -120,15 +170,15 @@ pub fn observe(o: &dyn DObj, pts: &[f64]) -> Vec<u64> {
         }
         Err(_) => v.extend([0xdead_0000_0000_0002, 0xdead_0000_0000_0002]),
     }
-    for &seed in &SEEDS {
+    for &seed in &sds {
         alea::set_seed(seed);
         alea::script::reset_draws();
         alea::script::set_draw_limit(Some(200_000));
-        let r = guard(|| (0..NSAMP).map(|_| o.draw()).collect::<Vec<f64>>());
+        let r = guard(|| (0..ns).map(|_| o.draw()).collect::<Vec<f64>>());
         alea::script::set_draw_limit(None);
         match r {
             Ok(s) => v.extend(s.iter().map(|x| bits(*x))),
-            Err(e) => v.extend(std::iter::repeat(if e.contains("livelock") { 0xdead_0000_0000_0004 } else { 0xdead_0000_0000_0003 }).take(NSAMP)),
+            Err(e) => v.extend(std::iter::repeat(if e.contains("livelock") { 0xdead_0000_0000_0004 } else { 0xdead_0000_0000_0003 }).take(ns)),
         }
     }
     v
@@ -145,7 +195,7 @@ fn describe_diff(a: &[u64], b: &[u64], npts: usize) -> String {
                 "variance".to_string()
             } else {
                 let k = i - npts - 2;
-                format!("sample #{} after set_seed({})", k % NSAMP, SEEDS[k / NSAMP])
+                format!("sample #{} after set_seed({})", k % nsamp(), seeds()[k / nsamp()])
             };
             return format!("{}: object {:e} vs fresh twin {:e}", what, f64::from_bits(a[i]), f64::from_bits(b[i]));
         }
@@ -374,7 +424,8 @@ fn explore_law(run: &'static Run, law: Arc<Law>) {
 }
 
 pub fn run(run: &Run) {
-    run.rule("per law: BFS to closure over {every setter × its value lattice, update × every tuple of the lattices} from constructed objects; transition oracle: the call succeeds iff the constructor accepts the resulting tuple (after a rejection the object must equal the twin of the old or a partially updated in-domain tuple); state invariant: density/mass on 25 points, mean, var and 16 samples from each of 3 seeds are bitwise those of a freshly constructed twin; non-trivial = every distinct reachable state");
+    THOROUGH.store(run.thorough(), std::sync::atomic::Ordering::Relaxed);
+    run.rule("per law: BFS to closure over {every setter × its value lattice, update × every tuple of the lattices} from constructed objects; transition oracle: the call succeeds iff the constructor accepts the resulting tuple (after a rejection the object must equal the twin of the old or a partially updated in-domain tuple); state invariant: density/mass on 25 points, mean, var and 16 samples from each of 3 seeds (32 from each of 50 seeds and denser parameter lattices in the thorough tier) are bitwise those of a freshly constructed twin; bulk draws of 1..20000 from a seed are repeatable and equal to the twin's; non-trivial = every distinct reachable state");
     let run_s: &'static Run = unsafe { &*(run as *const Run) };
     for law in laws() {
         explore_law(run_s, Arc::new(law));
@@ -425,7 +476,7 @@ pub fn run(run: &Run) {
     }
     run.require_regime("bulk-reproducible");
     // construction of other objects consumes no randomness
-    for &seed in &SEEDS {
+    for &seed in &seeds() {
         run.case();
         run.tr();
         run.ok();
